@@ -22,15 +22,17 @@ Has(e, f) == f \in DOMAIN e
 BlsR == <<1, 0, 0, 0, 255, 255, 255, 255, 254, 91, 254, 255, 2, 164, 189, 83, 5, 216, 161, 9, 8, 216, 57, 51, 72, 125, 157, 41, 83, 167, 237, 115>>
 
 DigestLen(alg) == CASE alg \in {"sha256", "sha256_varlen", "sha3_256", "keccak_256", "blake2b_256"} -> 32
-                    [] alg \in {"sha512", "blake2b_512"} -> 64 [] alg = "poseidon" -> 1
-Defined(alg) == alg \in {"sha256", "sha256_varlen", "sha512", "poseidon"}
+                    [] alg \in {"sha512", "blake2b_512"} -> 64 [] alg \in {"poseidon", "poseidon_varlen"} -> 1
+Defined(alg) == alg \in {"sha256", "sha256_varlen", "sha512", "poseidon", "poseidon_varlen"}
+IsPos(alg) == alg \in {"poseidon", "poseidon_varlen"}
 ByteVals(groups) == [i \in 1..Len(groups) |-> ToInt(groups[i])]
 IsByteSeq(groups) == \A i \in 1..Len(groups) : Len(groups[i]) <= 1
 
 Digest(e, msg) ==
   CASE e.alg \in {"sha256", "sha256_varlen"} -> Sha256(msg)
     [] e.alg = "sha512" -> Sha512(msg)
-    [] e.alg = "poseidon" -> <<PoseidonHash(msg, pc.mds, pc.rc, BlsR)>>
+    \* (the variable-length gadget hashes the elements actually supplied, whatever fills the rest of the vector)
+    [] IsPos(e.alg) -> <<PoseidonHash(msg, pc.mds, pc.rc, BlsR)>>
     [] OTHER -> e.reference
 
 OpOK(e) ==
@@ -39,11 +41,12 @@ OpOK(e) ==
       shaped == Len(e.exposed) = nin + dl
       ins == SubSeq(e.exposed, 1, nin)
       outs == SubSeq(e.exposed, nin + 1, Len(e.exposed))
-      honestMsg == IF e.alg = "poseidon" THEN e.inputs ELSE e.msg
-      typed == IF e.alg = "poseidon" THEN \A i \in 1..Len(e.exposed) : Lt(e.exposed[i], BlsR) ELSE IsByteSeq(e.exposed)
+      honestMsg == IF IsPos(e.alg) THEN e.inputs ELSE e.msg
+      typed == IF IsPos(e.alg) THEN \A i \in 1..Len(e.exposed) : Lt(e.exposed[i], BlsR) ELSE IsByteSeq(e.exposed)
       exposedMsg == IF e.alg = "sha256_varlen" THEN e.msg
+                    ELSE IF e.alg = "poseidon_varlen" THEN e.inputs
                     ELSE IF e.alg = "poseidon" THEN ins ELSE ByteVals(ins)
-      outVals == IF e.alg = "poseidon" THEN outs ELSE ByteVals(outs)
+      outVals == IF IsPos(e.alg) THEN outs ELSE ByteVals(outs)
       judgeable == Defined(e.alg) \/ exposedMsg = honestMsg
   IN /\ e.status \in {"sat", "unsat", "synth_err", "panic"}
      \* soundness
